@@ -13,6 +13,11 @@ Decides the structural clauses:
          function, and every *_fixed function goes through constant_memo
   K-R3   the context constants are wired to the like-named kernels and pass
          (prec, rounding); interval constants evaluate with floor and ceiling
+  K-R4   closed-form term counts (e, pi, acot) against the convergence rates
+  K-R5   no floor-divided series quantity is multiplied by a coefficient growing
+         with the loop counter under a constant number of guard bits
+  K-R6   def_mpf_constant decides the rounding only when the discarded bits are
+         beyond a margin from every rounding boundary, else retries with more
 Not decided: that each *_fixed returns a true floor to the last bit.
 """
 import ast
@@ -43,13 +48,17 @@ def run(run, ix, tier):
     run.rule('K-R1', floor=4, desc='directed evaluation of a constant')
     run.rule('K-R2', floor=20, desc='pairing of mpf_<c> with <c>_fixed and memoisation')
     run.rule('K-R3', floor=25, desc='context / interval wiring')
+    run.rule('K-R6', floor=1, desc='rounding of a constant decided only away from the boundaries (retry)')
+    run.rule('K-R5', floor=2, desc='no growing multiplier on a floor-divided series quantity under constant guard bits')
     check_constant_memo(run, ix)
     check_mode_tables(run, ix)
     check_def_mpf_constant(run, ix)
+    check_boundary_retry(run, ix)
     pairs = check_pairing(run, ix)
     check_context_wiring(run, ix, pairs)
     check_e_terms(run, ix)
     check_more_term_counts(run, ix)
+    check_series_amplification(run, ix)
 
 
 def check_def_mpf_constant(run, ix):
@@ -99,9 +108,15 @@ def check_def_mpf_constant(run, ix):
     if mv and norm(bc) != 'bitcount(%s)' % mv:
         problems.append('bit count is not bitcount(%s)' % mv)
     src = {}
-    for st in f.node.body:
+    for st in _walk_own(f.node):
         if isinstance(st, ast.Assign) and isinstance(st.targets[0], ast.Name):
             src.setdefault(st.targets[0].id, []).append(st)
+    # the working precision may only be RAISED after its definition (retry with more bits)
+    for st in _walk_own(f.node):
+        if isinstance(st, ast.AugAssign) and isinstance(st.target, ast.Name) and st.target.id == wpv:
+            if not (isinstance(st.op, ast.Add) and isinstance(st.value, ast.Constant) and
+                    isinstance(st.value.value, int) and st.value.value > 0):
+                problems.append('working precision is changed by `%s`' % norm(st))
     guard = None
     if wpv:
         d = src.get(wpv, [])
@@ -186,6 +201,74 @@ def check_def_mpf_constant(run, ix):
     else:
         run.fail(Finding('K-R1', LIBELE, f.qualname, norm(par),
                          'bump does not sit between evaluation and rounding', line=par.lineno))
+
+
+def check_boundary_retry(run, ix):
+    """K-R6.  A constant is irrational: its fixed-point value, cut after prec + g bits, decides the
+    rounding only if the g discarded bits are not (within the few units of error of the fixed-point
+    routine) all zeros, all ones, or a one followed by zeros.  With a fixed g and no look at those
+    bits, some precision always exists at which the wrong neighbour is returned (degree at 144489
+    bits, where only 15 of the 20 bits survive its magnitude; apery at 17438 after 16598).  So the
+    evaluation must sit in a loop that is left only when the discarded bits -- a value obtained
+    from the mantissa by masking -- are farther than a positive margin from the boundaries, and
+    that otherwise raises the working precision."""
+    f = ix.func(LIBELE, 'def_mpf_constant.f')
+    fixed = ix.func(LIBELE, 'def_mpf_constant').params[0]
+    ev = [x for x in _walk_own(f.node) if isinstance(x, ast.Assign) and isinstance(x.value, ast.Call) and
+          norm(x.value.func) == fixed]
+    if len(ev) != 1:
+        raise AnalysisError('def_mpf_constant.f: evaluation of the fixed-point function not found')
+    ev = ev[0]
+    mv = ev.targets[0].id
+    wpv = norm(ev.value.args[0])
+    lp = ev
+    while lp is not f.node and not isinstance(lp, ast.While):
+        lp = lp._parent
+    if lp is f.node:
+        run.fail(Finding('K-R6', LIBELE, f.qualname, norm(ev),
+                         'the fixed-point value is evaluated once with a fixed number of guard bits and '
+                         'rounded whatever the discarded bits are: when they lie within the error of the '
+                         'fixed-point routine of a rounding boundary the wrong neighbour is returned',
+                         line=ev.lineno))
+        return
+    # names derived from the discarded bits of the mantissa
+    low = set()
+    changed = True
+    while changed:
+        changed = False
+        for x in ast.walk(lp):
+            if isinstance(x, ast.Assign) and isinstance(x.targets[0], ast.Name) and x.targets[0].id not in low:
+                mask = any(isinstance(b, ast.BinOp) and isinstance(b.op, ast.BitAnd) and
+                           mv in (norm(b.left), norm(b.right)) for b in ast.walk(x.value))
+                dep = any(isinstance(nm, ast.Name) and nm.id in low for nm in ast.walk(x.value))
+                if (mask or dep) and x.targets[0].id != mv:
+                    low.add(x.targets[0].id)
+                    changed = True
+    breaks = [x for x in ast.walk(lp) if isinstance(x, ast.Break)]
+    problems = []
+    if not breaks:
+        problems.append('the retry loop is never left')
+    for b in breaks:
+        par = b._parent
+        ok = False
+        if isinstance(par, ast.If) and b in par.body and isinstance(par.test, ast.Compare) and \
+                len(par.test.ops) == 1 and isinstance(par.test.ops[0], (ast.Gt, ast.GtE)):
+            l, r = par.test.left, par.test.comparators[0]
+            if isinstance(l, ast.Name) and l.id in low and isinstance(r, ast.Constant) and \
+                    isinstance(r.value, int) and r.value >= 1:
+                ok = True
+        if not ok:
+            problems.append('the loop is left by `%s` without a margin test on the discarded bits'
+                            % norm(par if isinstance(par, ast.If) else b, 70))
+    raises = [x for x in ast.walk(lp) if isinstance(x, ast.AugAssign) and norm(x.target) == wpv and
+              isinstance(x.op, ast.Add) and isinstance(x.value, ast.Constant) and x.value.value > 0]
+    if not raises:
+        problems.append('a retry does not raise the working precision %s' % wpv)
+    if problems:
+        run.fail(Finding('K-R6', LIBELE, f.qualname, norm(ev), '; '.join(problems), line=lp.lineno))
+    else:
+        run.ok('K-R6', 'retry loop: left only when the discarded bits (%s) are beyond a margin from the '
+               'rounding boundaries, else %s grows' % (', '.join(sorted(low)), wpv))
 
 
 def check_pairing(run, ix):
@@ -454,3 +537,138 @@ def check_more_term_counts(run, ix):
         run.fail(Finding('K-R4', LIBELE, 'acot_fixed', norm(ndef), 'for a = %d at prec = %d the series is cut after '
                          'N = %d terms, where the tail is about 2**-%d' % (a, p_, n, int((2 * n + 1) * math.log(a, 2))),
                          line=ndef.lineno))
+
+
+# ---------------------------------------------------------------------------------------------
+# K-R5  error amplification in fixed-point series.  In a series loop a running quantity X is kept
+# by floor division (X //= ...): it carries an error of up to about one unit.  If the term is then
+# formed by multiplying X with a coefficient that GROWS with the loop counter (and is not divided
+# back in the same expression), the unit error of every one of the O(prec) terms is multiplied by
+# that coefficient: the total error grows like a power of the precision and overruns any CONSTANT
+# number of guard bits (apery_fixed: 205 n^2 + 250 n + 77, error +100 units at 17458 bits, +3233
+# at 100000).  Rule: net degree in the loop counter of (multipliers / divisors) applied to a
+# floor-divided variable is <= 0, or the guard bits of the function depend on the precision.
+def _degree(e, counter):
+    """polynomial degree of e in the loop counter (None = not a polynomial we understand)"""
+    if isinstance(e, ast.Constant) and isinstance(e.value, (int, float)):
+        return 0
+    if isinstance(e, ast.Name):
+        return 1 if e.id == counter else 0
+    if isinstance(e, ast.UnaryOp):
+        return _degree(e.operand, counter)
+    if isinstance(e, ast.BinOp):
+        a, b = _degree(e.left, counter), _degree(e.right, counter)
+        if isinstance(e.op, ast.Pow):
+            if isinstance(e.right, ast.Constant) and isinstance(e.right.value, int) and a is not None:
+                return a * e.right.value
+            if a == 0:
+                return 0            # (-1)**n and the like: bounded
+            return None
+        if a is None or b is None:
+            return None
+        if isinstance(e.op, ast.Mult):
+            return a + b
+        if isinstance(e.op, (ast.Add, ast.Sub)):
+            return max(a, b)
+        if isinstance(e.op, (ast.FloorDiv, ast.Div)):
+            return a - b
+        if isinstance(e.op, (ast.LShift, ast.RShift)):
+            return a
+    if isinstance(e, ast.Call) and norm(e.func) in ('MPZ', 'int', 'abs'):
+        return _degree(e.args[0], counter) if e.args else 0
+    return None
+
+
+def check_series_amplification(run, ix):
+    n = 0
+    for rel in (LIBELE, GZ):
+        m = ix.module(rel)
+        for f in m.funcs.values():
+            if f.parent is not None or not f.name.endswith('_fixed'):
+                continue
+            loops = [x for x in _walk_own(f.node) if isinstance(x, ast.While)]
+            for lp in loops:
+                body = [x for x in ast.walk(lp) if isinstance(x, ast.stmt)]
+                counters = [x.target.id for x in body if isinstance(x, ast.AugAssign) and
+                            isinstance(x.op, ast.Add) and isinstance(x.target, ast.Name) and
+                            isinstance(x.value, ast.Constant) and x.value.value == 1]
+                if len(counters) != 1:
+                    continue
+                c = counters[0]
+                # floor-divided running quantities
+                trunc = set()
+                for x in body:
+                    if isinstance(x, ast.AugAssign) and isinstance(x.op, ast.FloorDiv) and \
+                            isinstance(x.target, ast.Name):
+                        trunc.add(x.target.id)
+                    if isinstance(x, ast.Assign) and isinstance(x.targets[0], ast.Name) and \
+                            any(isinstance(b, ast.BinOp) and isinstance(b.op, ast.FloorDiv)
+                                for b in ast.walk(x.value)) and \
+                            x.targets[0].id in {nm.id for nm in ast.walk(x.value) if isinstance(nm, ast.Name)}:
+                        trunc.add(x.targets[0].id)
+                if not trunc:
+                    continue
+                guard_const = _guard_is_constant(f)
+                for x in body:
+                    if not (isinstance(x, ast.Assign) and isinstance(x.targets[0], ast.Name)):
+                        continue
+                    tgt = x.targets[0].id
+                    used = {nm.id for nm in ast.walk(x.value) if isinstance(nm, ast.Name)} & trunc
+                    if not used or tgt in trunc:
+                        continue
+                    # degree of everything that multiplies the truncated variable(s): replace them by 1
+                    d = _degree(x.value, c)
+                    n += 1
+                    if d is None:
+                        raise AnalysisError('K-R5: cannot take the degree of `%s` in %s' % (norm(x), f.qualname))
+                    if d <= 0:
+                        run.ok('K-R5', '%s: `%s` net degree %d in %s' % (f.qualname, norm(x, 60), d, c))
+                    elif not guard_const:
+                        run.ok('K-R5', '%s: `%s` degree %d, guard bits grow with the precision'
+                               % (f.qualname, norm(x, 50), d))
+                    else:
+                        run.fail(Finding('K-R5', rel, f.qualname, norm(x),
+                                         'the floor-divided quantity %s (error up to a unit) is multiplied by a '
+                                         'coefficient of degree %d in the loop counter %s in each of O(prec) terms, '
+                                         'while the function keeps a CONSTANT number of guard bits: the accumulated '
+                                         'error grows like prec^%d and overruns them at high precision (wrong-side '
+                                         'directed values, history-dependent results)'
+                                         % (sorted(used), d, c, d + 1), line=x.lineno))
+    if n < 2:
+        raise AnalysisError('K-R5: only %d series terms built from floor-divided quantities found' % n)
+
+
+def _guard_is_constant(f):
+    """True if every assignment that raises the working precision adds a constant"""
+    prec = f.params[0]
+    seen = False
+    const = True
+    names_const = {}
+    for x in _walk_own(f.node):
+        if isinstance(x, ast.Assign) and isinstance(x.targets[0], ast.Name):
+            names_const[x.targets[0].id] = not any(
+                isinstance(nm, ast.Name) and nm.id == prec for nm in ast.walk(x.value)) and \
+                all(names_const.get(nm.id, True) for nm in ast.walk(x.value) if isinstance(nm, ast.Name))
+    for x in _walk_own(f.node):
+        v = None
+        if isinstance(x, ast.AugAssign) and isinstance(x.target, ast.Name) and x.target.id == prec and \
+                isinstance(x.op, ast.Add):
+            v = x.value
+        elif isinstance(x, ast.Assign) and isinstance(x.targets[0], ast.Name) and \
+                isinstance(x.value, ast.BinOp) and isinstance(x.value.op, ast.Add) and \
+                any(isinstance(nm, ast.Name) and nm.id == prec for nm in ast.walk(x.value)):
+            l, r = x.value.left, x.value.right
+            v = r if norm(l) == prec else l if norm(r) == prec else None
+            if v is None:
+                const = False
+                seen = True
+                continue
+        if v is None:
+            continue
+        seen = True
+        if isinstance(v, ast.Constant):
+            continue
+        if isinstance(v, ast.Name) and names_const.get(v.id, False):
+            continue
+        const = False
+    return const if seen else True
